@@ -1,5 +1,6 @@
 import XzVerif.Props.C01
 #print axioms Props.C01.C01_segment_roundtrip
+#print axioms Props.C01.C01_container_roundtrip
 #print axioms Props.C01.C01_op_codec_mirror
 #print axioms Props.C01.C01_range_coder_roundtrip
 #print axioms Props.C01.C01_tables
